@@ -13,7 +13,9 @@ Clause(r) ==
   LET g == r.case.g IN
   CASE r.ev # "ok" -> r.ev
     [] ~r.encok -> "encode-error"
-    [] r.enctoks # Render(g) -> "encoder-tokens"
+    \* the independent reader (the parser specification) must read the encoder's tokens back to g; WHICH standard
+    \* rendering the encoder picks (bare or parenthesised multipoint members, ...) is not prescribed
+    [] ~ParsesBack(g, r.enctoks) -> "encoder-tokens"
     [] ~ReadsAs(r.own, g) -> "own-parser-roundtrip"
     [] \E k \in DOMAIN r.sp : ~ReadsAs(r.sp[k], g) -> "spelling-variant"
     [] OTHER -> "ok"
